@@ -13,6 +13,8 @@ set_option linter.constructorNameAsVariable false
   sizes line s0 s1 s2|- - - qa qb qc   -> lo hi lo hi lo hi | err:type
   mono  <common> shape width nsym | tab(3N')
   array <common> burgers(3) linear bw cutoff nsym | tab(3N')
+  region m n shape width box(12) N pos(3N)          -> ok radius | outside flags | near flags   | err:assert
+  disreg m n planepos(3) N pos(3N) disp(3N)         -> ok above below | coord | vals(3 per coord) | margin | err:value
      <common> = m n | s0 s1 s2 qa qb qc | pbc(3) | rcell box(12) | natoms | (atype x y z)* | shift(3) | center(3)
 -/
 
@@ -349,6 +351,72 @@ def handleArray (toks : List String) : String :=
         " ".intercalate (r.dups.map toString) ++ " | " ++ showBox base0.box ++ " | " ++ showPos base0.atoms ++ " | " ++
         showRat (padMargin newbox newpbc (List.zipWith (· + ·) ps disp))
 
+/-! ### region / disregistry -/
+
+/-- `region m n shape width box(12) N pos…`: the boundary region of `monopole` built from the given reference box,
+    evaluated on the given positions (the same definitions `monopoleBoundary` uses). -/
+def handleRegion (toks : List String) : String :=
+  let p : P (Option (Orient × Shape × Rat × Box Rat × List (V3 Rat))) := do
+    let m ← pAx; let n ← pAx
+    let sh ← tok; let w ← pRat
+    let box ← pBox
+    let np ← pNat
+    let ps ← pMany pV3 np
+    pEnd
+    match orient m n, shapeOf? sh with
+    | some o, some sh => pure (some (o, sh, w, box, ps))
+    | _, _ => pure none
+  match p.run toks with
+  | none => err "format"
+  | some (none, _) => err "value"
+  | some (some (o, shape, width, box, ps), _) =>
+    let atoms : List (Atom Rat) := ps.map fun q => ⟨1, q, []⟩
+    let sys : Sys Rat := ⟨box, pbcOnly o.line, atoms⟩
+    match monopoleBoundary C05.ratSqrt o shape width 1 sys sys with
+    | none => err "assert"
+    | some r =>
+      let flags := r.atoms.map fun a => decide (a.atype ≠ 1)
+      let near : List Bool :=
+        if width > 0 then
+          match shape with
+          | .box =>
+            let pls := boxBoundaryPlanes o.line box
+            ps.map (fun q => decide (minOfL (pls.map (fun pl => planeMargin width pl q)) 1 < nearEps))
+          | .cylinder =>
+            let rad := cylRadius C05.ratSqrt o.motion o.cut o.line box width
+            let L := box.vects.row o.line
+            let t := rad * rad * V3.normSq L
+            ps.map (fun q => decide (ratAbs (V3.normSq (V3.cross q L) - t) / t < nearEps))
+        else ps.map (fun _ => false)
+      let rad : Rat := if width > 0 && shape == .cylinder then cylRadius C05.ratSqrt o.motion o.cut o.line box width else 0
+      "ok " ++ showRat rad ++ " | " ++ showFlags flags ++ " | " ++ showFlags near
+
+/-- `disreg m n planepos(3) N pos(3N) disp(3N)`. -/
+def handleDisreg (toks : List String) : String :=
+  let p : P (Ax × Ax × V3 Rat × List (V3 Rat) × List (V3 Rat)) := do
+    let m ← pAx; let n ← pAx
+    let pp ← pV3
+    let np ← pNat
+    let ps ← pMany pV3 np
+    let ds ← pMany pV3 np
+    pEnd
+    pure (m, n, pp, ps, ds)
+  match p.run toks with
+  | none => err "format"
+  | some ((m, n, pp, ps, ds), _) =>
+    let atol : Rat := 1 / 100000000
+    let rtol : Rat := 1 / 100000
+    let mv : V3 Rat := (Ax.unit m).map (fun (i : Int) => (i : Rat))
+    let nv : V3 Rat := (Ax.unit n).map (fun (i : Int) => (i : Rat))
+    match disregistry atol rtol mv nv pp ps ds with
+    | .error e => err e
+    | .ok r =>
+      -- margin of the `isclose` selections of the two planes (relative to their thresholds)
+      let ys := ps.map (fun q => V3.dot q nv)
+      let mg := fun (h : Rat) => minOfL (ys.map fun y => ratAbs (ratAbs (y - h) - (atol + rtol * ratAbs h))) 1
+      "ok " ++ showRats [r.above, r.below] ++ " | " ++ showRats r.coord ++ " | " ++
+        showRats (r.vals.flatMap (·.toList)) ++ " | " ++ showRat (min (mg r.above) (mg r.below))
+
 def handleC13 (toks : List String) : String :=
   match toks with
   | "cells" :: rest =>
@@ -384,6 +452,8 @@ def handleC13 (toks : List String) : String :=
     | none => err "format"
   | "mono" :: rest => handleMono rest
   | "array" :: rest => handleArray rest
+  | "region" :: rest => handleRegion rest
+  | "disreg" :: rest => handleDisreg rest
   | _ => err "op"
 
 def main : IO Unit := runDriver handleC13
